@@ -25,7 +25,8 @@ fn str_call(rng: &mut Rng, api: Api, text: String) -> Call {
 }
 
 fn random_call(rng: &mut Rng, sc: &mut Scenario, file_no: &mut usize) -> Call {
-    let src = match rng.below(13) {
+    let src = match rng.below(14) {
+        13 => gen::comment_macro_program(rng),
         12 => gen::repeated_construct(rng),
         10 | 11 => gen::macro_program(rng),
         0 | 1 | 2 => gen::polluter(rng),
